@@ -25,9 +25,12 @@ RULE = ("families = one operation together with EVERY permutation of the storage
         "sum_to / sum_over / cast_to / get_shares_over / cumsum, slice reads with dict/tuple/Dimension keys, whole-array and "
         "slice assignment. Each variant is checked against the model; the oracle compares all variants by label. "
         "A family is non-trivial when it has >= 2 variants.")
-ASSUMPTIONS = c01.ASSUMPTIONS + ["DataFrame round trips, stacking/splitting and lifetime parameters are covered under C11 / C06 / C08"]
+ASSUMPTIONS = c01.ASSUMPTIONS + ["DataFrame round trips and stacking/splitting are covered under C11 / C06; lifetime parameters: families judged by C08's oracle and compared across storage orders (not sent to the Coq model here; C08 does that)"]
 
-FAM = {"C01": c01, "C07": c07, "C06": c06, "C05": c05}
+import props.c08 as c08
+import props.c03 as c03
+import stocksdrv as sdrv
+FAM = {"C01": c01, "C07": c07, "C06": c06, "C05": c05, "C08": c08}
 PREFIX = {"C01": "S01 (C01.mk_case", "C07": "S07 (C07.mk_case", "C06": "SIx (Indexing.mk_case", "C05": "SIx (Indexing.mk_case"}
 
 
@@ -132,6 +135,41 @@ def generate(tier, rng):
                        steps=[dict(op="set", key=dict(form="ellipsis"), rhs=dict(kind="arr", arr=permute_desc(uni, s0, ps)))])
                   for p in perms(xs) for ps in perms(sd, 6)]
             fams.append(dict(stream="exact", family="C05", fixed="target", variants=vs))
+    fams += lifetime_families(tier)
+    return fams
+
+
+def _permute_param(grid, pdesc, perm):
+    shp = {"t": len(grid)}
+    shp.update({l: len(v) for l, v in sdrv.EXTRA.items()})
+    v = np.array(pdesc["values"], dtype=object).reshape([shp[l] for l in pdesc["dims"]])
+    vt = np.transpose(v, [pdesc["dims"].index(l) for l in perm])
+    return dict(dims=list(perm), values=vt.flatten().tolist())
+
+
+def lifetime_families(tier):
+    """a parameter handed to a lifetime model, stored in every order of its dimensions (equal lengths r/h keep the shape)"""
+    fams = []
+    k = 0
+    for gname in (["unit", "uneven"] if tier == "quick" else ["unit", "const5", "uneven", "three"]):
+        grid = c03.GRIDS[gname]
+        n = len(grid)
+        for extra in (["r", "h"], ["r", "g"], ["r"]):
+            full = ["t"] + extra
+            for pd in (full, extra):
+                m = int(np.prod([len(grid) if l == "t" else len(sdrv.EXTRA[l]) for l in pd]))
+                for kind in ("probe", "normal"):
+                    k += 1
+                    base = dict(dims=pd, values=[[1, 2, 4, 8, 2, 1, 4][(k + 5 * i + i // 3) % 7] for i in range(m)] if kind == "probe"
+                                else [5 + ((3 * i + k) % 7) for i in range(m)])
+                    vs = []
+                    for perm in itertools.permutations(pd):
+                        prm = _permute_param(grid, base, perm)
+                        lt = dict(kind="probe", mean=prm, inflow_at="start", n_pts=1) if kind == "probe" else \
+                            dict(kind="normal", mean=prm, std=_permute_param(grid, dict(dims=pd, values=[2 + (i % 3) for i in range(m)]), perm[::-1]),
+                                 inflow_at="middle", n_pts=1)
+                        vs.append(dict(stream="exact" if kind == "probe" else "tolerance", coq=False, grid=grid, gname=gname, extra=extra, lifetime=lt))
+                    fams.append(dict(stream="exact" if kind == "probe" else "tolerance", coq=False, family="C08", fixed="model", variants=vs))
     return fams
 
 
@@ -152,6 +190,22 @@ def _result(fam, o):
 
 def oracle(case, obs):
     m = FAM[case["family"]]
+    if case["family"] == "C08":
+        for v, o in zip(case["variants"], obs["obs"]):
+            r = m.oracle(v, o)
+            if r:
+                return f"[C08] parameter stored as {v['lifetime']['mean']['dims']}: {r}"
+        b = obs["obs"][0]
+        for v, o in zip(case["variants"][1:], obs["obs"][1:]):
+            if o["kind"] != b["kind"]:
+                return f"[C08] storage order of the lifetime parameter changes the outcome ({v['lifetime']['mean']['dims']})"
+            if o["kind"] == "ok":
+                for key in ("sf", "pdf"):
+                    for j, (x, y) in enumerate(zip(b["value"][key], o["value"][key])):
+                        if x != y and abs(Fraction(*x) - Fraction(*y)) > Fraction(1, 10 ** 12):
+                            return (f"[C08] {key} entry #{j} differs between storage orders of the lifetime parameter: "
+                                    f"{float(Fraction(*x)):.9g} vs {float(Fraction(*y)):.9g} ({v['lifetime']['mean']['dims']})")
+        return None
     # each variant satisfies the operation's own specification (incl. the documented dimension order)
     for v, o in zip(case["variants"], obs["obs"]):
         r = m.oracle(v, o)
@@ -174,6 +228,8 @@ def oracle(case, obs):
 
 
 def _vdesc(case, v):
+    if case["family"] == "C08":
+        return f"lifetime parameter {v['lifetime']['mean']['dims']}"
     if case["family"] == "C01":
         return f"x{v['x']['dims']} {v['op']['op']} y{v['op']['y']['dims']}"
     if case["family"] == "C07":
